@@ -121,6 +121,11 @@ class Ctx:
         A violation of the *model* is never a VIOLATION verdict: caller decides; by default => broken."""
         sdir = self.specdir(spec)
         workers = workers or (8 if self.quick else 16)
+        try:   # do not thrash an already saturated machine
+            if os.getloadavg()[0] > 2 * (os.cpu_count() or 16):
+                workers = min(workers, 4)
+        except OSError:
+            pass
         args = ["-workers", str(workers), "-seed", str(self.seed)]
         if not deadlock:
             args += ["-deadlock"]
